@@ -518,7 +518,12 @@ func TestC20(t *testing.T) {
 		wantMethod := ""
 		var checkReq func(req any) string
 		var mustShow []string
-		switch ci.Name {
+		// what a command does is documented by the name the user types: show-<x> is get-<x>
+		canon := name
+		if strings.HasPrefix(canon, "show-") {
+			canon = "get-" + strings.TrimPrefix(canon, "show-")
+		}
+		switch canon {
 		case "params":
 			wantMethod = "Params"
 			checkReq = func(any) string { return "" }
@@ -620,7 +625,7 @@ func TestC20(t *testing.T) {
 				return ""
 			}
 		default:
-			report(col, rt, "C20/unknown-query-command/"+ci.Name, "the binary registers an unexpected query command %q (usage %q)", ci.Name, ci.Use)
+			report(col, rt, "C20/unknown-query-command/"+name, "the binary registers a query command or alias %q (of %q) that names no query of the module", name, ci.Use)
 			return
 		}
 		if len(args) > 0 && !strings.HasPrefix(args[0], "--") && len(ci.Holders) != len(args) {
@@ -646,7 +651,7 @@ func TestC20(t *testing.T) {
 		}
 		// display: only when the node has an answer
 		answerable := true
-		switch ci.Name {
+		switch canon {
 		case "get-auction":
 			answerable = snap.Auction(aid) != nil
 		case "get-bid":
@@ -655,11 +660,11 @@ func TestC20(t *testing.T) {
 			answerable = snap.Cap(aid, bidder3) != nil
 		}
 		if answerable {
-			if !checkDisplay(rt, ci.Name, out, err, mustShow...) {
+			if !checkDisplay(rt, canon, out, err, mustShow...) {
 				return
 			}
 		}
-		col.Case(map[string]any{"cmd": name, "args": args}, len(ci.Holders) >= 2, map[string]int{"c20:query/" + ci.Name: 1}, map[string]any{"command": "query fundraising " + name + " " + strings.Join(args, " ")})
+		col.Case(map[string]any{"cmd": name, "args": args}, len(ci.Holders) >= 2, map[string]int{"c20:query/" + name: 1}, map[string]any{"command": "query fundraising " + name + " " + strings.Join(args, " ")})
 	})
 	_ = query.PageRequest{}
 }
